@@ -308,7 +308,7 @@ def oracle(inp: dict, per: list[dict], whole: dict) -> tuple[list[str], int | No
                 bad.append(f"{name}: items for chunking differ from items for the unsplit stream")
         if bad and first_dep is None:
             first_dep = idx
-            fails += [f"{b} (cuts {cuts})" for b in bad]
+            fails += bad
     spec = inp.get("spec")
     if inp["kind"] == "sse":
         exp = expected_events(spec)
@@ -429,6 +429,16 @@ def c_case(r: dict) -> str | None:
     return f"(let i := {ci} in (i, {obs}))"
 
 
+def jsonable(o: Any) -> Any:
+    if isinstance(o, bytes):
+        return o.hex()
+    if isinstance(o, dict):
+        return {k: jsonable(v) for k, v in o.items()}
+    if isinstance(o, (list, tuple)):
+        return [jsonable(v) for v in o]
+    return o
+
+
 def split_by_obs(r: dict) -> list[dict]:
     """group the chunkings of one case by the (shared part of the) observation, so each Coq case has one"""
     groups: dict[str, list[int]] = {}
@@ -498,8 +508,8 @@ def main(chk: Check, replay: dict | None = None) -> int:
     if replay is not None:
         r = run_all([replay["input"]])[0]
         fails, _ = oracle(r["input"], r["per"], r["whole"])
-        print(json.dumps({"input": r["input"], "whole": r["whole"], "per": r["per"][:4], "oracle_fail": fails}, indent=1,
-                         default=repr))
+        print(json.dumps(jsonable({"input": r["input"], "whole": r["whole"], "per": r["per"][:4], "oracle_fail": fails}),
+                         indent=1))
         if fails:
             print(f"VIOLATION property=C18 replay=(replayed) : {fails}")
             return 1
@@ -514,7 +524,7 @@ def main(chk: Check, replay: dict | None = None) -> int:
 
     def bump(d: dict, k: Any) -> None:
         d[str(k)] = d.get(str(k), 0) + 1
-    n_eval = 0
+    n_eval = n_min = 0
     distinct: set = set()
     stats = {"ill_formed_streams": 0, "non_ascii_streams": 0, "cuts_inside_multibyte": 0, "cuts_between_cr_lf": 0,
              "exhaustive_streams": 0, "oracle_failures": 0, "ndjson_raised": 0}
@@ -522,7 +532,10 @@ def main(chk: Check, replay: dict | None = None) -> int:
         inp = r["input"]
         st = stream_of(inp)
         fails, dep = oracle(inp, r["per"], r["whole"])
-        rep_inp = minimise_cuts(inp, dep) if dep is not None else inp
+        rep_inp = inp
+        if dep is not None:  # report the failing chunking alone; minimise its cut set for the first few
+            n_min += 1
+            rep_inp = minimise_cuts(inp, dep) if n_min <= 6 else {**inp, "chunkings": [inp["chunkings"][dep]]}
         bump(dist["kind"], inp["kind"])
         if inp.get("spec"):
             bump(dist["term"], inp["spec"]["term"])
@@ -543,7 +556,7 @@ def main(chk: Check, replay: dict | None = None) -> int:
         for j, part in enumerate(split_by_obs(r)):
             txt = c_case(part)
             case = {"input": rep_inp if (fails and j == 0) else part["input"],
-                    "obs": {"whole": r["whole"], "first_chunking": part["per"][0]},
+                    "obs": jsonable({"whole": r["whole"], "first_chunking": part["per"][0]}),
                     "oracle_fail": fails if j == 0 else []}
             if txt is None:
                 unprintable.append(case)
@@ -557,7 +570,7 @@ def main(chk: Check, replay: dict | None = None) -> int:
     chk.cov["input_distribution"] = {**dist, **stats, "streams": len(results)}
     for r in results[:1] + results[len(results) // 2:len(results) // 2 + 2]:
         chk.sample({"input": {k: v for k, v in r["input"].items() if k != "chunkings"},
-                    "chunkings": r["input"]["chunkings"][:3], "whole": json.loads(json.dumps(r["whole"], default=repr))})
+                    "chunkings": r["input"]["chunkings"][:3], "whole": jsonable(r["whole"])})
     codes = None
     if chk.model_ok:
         # shards are balanced by size: an exhaustive case carries up to 4096 chunkings
